@@ -41,7 +41,11 @@ def run(tier):
            for _ in range(n // 3)]
     m2 = run_histories(chk, hs, {"C12"}, label="c12r", sample=False)
     m3 = run_many_blocks(chk, {"C12"}, ns=(65536, 65537))
-    chk.distinct = m1["execs"] + m2["execs"] + m3["execs"]
+    # the counters also match when the output fails: a call that ends with an exception wrote no block (fault sweep on
+    # descriptor outputs, blocks larger than the staging buffer included)
+    from checks.writer_common import run_scenarios, exporter_scenarios
+    m4 = run_scenarios(chk, "c16", exporter_scenarios(rng, tier, comps=("none",), kinds=("fd",), recover=True), {"C12"}, "c12f")
+    chk.distinct = m1["execs"] + m2["execs"] + m3["execs"] + m4["execs"]
     return chk.finish()
 
 
